@@ -652,6 +652,8 @@ def _eval_poly_in_n(e: ast.AST, k: int):
 
 
 def run(repo: Repo, rep):
+    from .c11 import r5_r6_mixtures  # row k of a union sample belongs to parameter row k // n: operands are mixed row-wise (where), never re-ordered by selection and concatenation
+    r5_r6_mixtures(repo, rep)
     r10_perimeter_walk(repo, rep)
     r9_finite_for_every_count(repo, rep)
     from .c06 import r7b_edge_table  # rejection on a polygon boundary accepts what its membership accepts: only the lines of its own sides
